@@ -149,6 +149,7 @@ def generate(rng, i, tier):
         "policy": pol,
         "double": double,
         "factory": (not managed) and rng.random() < 0.25,
+        "late_policy": (not managed) and ("raise" not in pol) and rng.random() < 0.2,
         "deco": "empty_term" if rng.random() < 0.2 else None,
         "pre_shared": pre_shared,
         "via_import": via_import,
@@ -190,6 +191,8 @@ def reductions(sc):
         yield with_(sc, double=False)
     if sc.get("factory"):
         yield with_(sc, factory=False)
+    if sc.get("late_policy"):
+        yield with_(sc, late_policy=False)
     for j, F in enumerate(sc["planted"]):
         for l in F:
             c = with_(sc)
@@ -389,6 +392,13 @@ def execute(sc):
                     # but no Result collects for it); the policy is the one in config.ini
                     cp = ops.new_csvpaths().csvpath()
                     out.probe("CsvPath from the CsvPaths.csvpath() factory run directly")
+                elif sc.get("late_policy") and not sc.get("pre_shared"):
+                    # the instance is created while config.ini says "raise, ..."; the caller then narrows the policy on the
+                    # instance's own Config (the public setter) before the run: what counts is the policy at run time
+                    w.write_config(csvpath_policy=["raise"] + [f for f in sc["policy"] if f != "raise"])
+                    cp = CsvPath()
+                    cp.config.csvpath_errors_policy = list(sc["policy"])
+                    out.probe("policy narrowed on the instance after it was created under a policy with raise")
                 else:
                     cp = CsvPath(config=cfg)
             tp = TestPrinter()
@@ -536,6 +546,7 @@ def execute(sc):
         out.probe("logic-mode OR with the erroring component alone", bool(sc.get("or_single")))
         out.probe("two components raised on the same line", False)
         out.probe("CsvPath from the CsvPaths.csvpath() factory run directly", False)
+        out.probe("policy narrowed on the instance after it was created under a policy with raise", False)
         out.probe("an earlier CsvPath sharing the Config object ran with a contradicting override", False)
         out.probe("stop()/skip() later on an offending line", bool(sc.get("tail")) and any(sc["tail"]["line"] in F for F in sc["planted"]))
         out.nontrivial = evaluated_any
